@@ -7,7 +7,7 @@ from collections import defaultdict
 from itertools import product as py_product
 
 from sympy import (Basic, Expr, S, Mul as SymMul, Add as SymAdd, Derivative as SymDerivative,
-    fraction, sympify as sym_sympify)
+    fraction, sympify as sym_sympify, default_sort_key)
 from sympy.core import function as sym_fn
 from sympy.core.parameters import global_parameters
 from sympy.physics.units import Dimension
@@ -153,7 +153,7 @@ def _ordered_mul(
         case 1:
             return exprs[0]
 
-    key = key or id
+    key = key or default_sort_key
 
     mapping: dict[int, dict[tuple[Expr, ...],
         Expr]] = defaultdict(lambda: defaultdict(lambda: S.Zero))
